@@ -101,7 +101,9 @@ func c05GenFilters(r *rand.Rand) c05Filters {
 	var f c05Filters
 	hostBits := []string{"a.example", "b-site", "cdn.c", "example.org", "d.example:8080", "deep", "xn--", ".example", "e.example", "g.example"}
 	strBits := []string{"/img", "x.png", "?id=", "utm_", "https://", "index", "/v1/", "%20", "a=1", ".js", "~t", "/css/y.js", "a+b", "%2C", "p%2Fq", "=x%2Cy", "64%3A64"}
-	reBits := []string{`\.png$`, `^https://www\.`, `[?&]page=\d*`, `/(css|img)/`, `example\.org`, `(?i)INDEX\.HTML`, `\d{2,}`, `//[^/]*:8080/`}
+	reBits := []string{`\.png$`, `^https://www\.`, `[?&]page=\d*`, `/(css|img)/`, `example\.org`, `(?i)INDEX\.HTML`, `\d{2,}`, `//[^/]*:8080/`,
+		// regexes on the spelling the crawler's query re-encoding puts on the wire (a page may spell the same query differently)
+		`=a\+b(&|$)`, `%2C`, `=p%2Fq`, `64%3A64`, `[?&][a-z0-9_]+=v(&|$)`, `=x%2Cy`}
 	pickN := func(src []string, max int) []string {
 		n := r.Intn(max + 1)
 		out := []string{}
@@ -188,7 +190,7 @@ func c05Child(scPath string) int {
 	oddQuery := func() string {
 		var ps []string
 		for k := 0; k < 1+rng.Intn(3); k++ {
-			ps = append(ps, pick(rng, genKeys)+"="+pick(rng, []string{"a%20b", "a b", "x,y", "p/q", "64:64,smart", "v", "1", "c%2Cd", "a+b"}))
+			ps = append(ps, pick(rng, genKeys)+"="+pick(rng, []string{"a%20b", "a b", "x,y", "p/q", "64:64,smart", "v", "1", "c%2Cd", "a+b", "%76", "%78%2cy"}))
 		}
 		return strings.Join(ps, "&")
 	}
